@@ -6,14 +6,19 @@ From Z80V Require Export Prelude.Types.
    equality build syntactically equal chains *)
 Definition upd (m : Z -> Z) (a v : Z) : Z -> Z := fun x => if x =? a then v else m x.
 
-Definition log_ev (cpu : CPU) (e : event) : CPU :=
-  s_W cpu (mk_World (ram (g_W cpu)) (e :: trace (g_W cpu)) (inputs (g_W cpu))).
-
+(* world-level primitives: what an access to the user's memory object does *)
+Definition w_log (w : World) (e : event) : World := mk_World (ram w) (e :: trace w) (inputs w).
 (* Memory.Get / Memory.Set reaching the user's memory object.  The interface returns a uint8. *)
-Definition user_get (cpu : CPU) (a : Z) : CPU * Z :=
-  let v := u8 (ram (g_W cpu) a) in (log_ev cpu (EvRd a v), v).
-Definition user_set (cpu : CPU) (a v : Z) : CPU :=
-  s_W cpu (mk_World (upd (ram (g_W cpu)) a v) (EvWr a v :: trace (g_W cpu)) (inputs (g_W cpu))).
+Definition user_get_w (w : World) (a : Z) : World * Z :=
+  let v := u8 (ram w a) in (w_log w (EvRd a v), v).
+Definition user_set_w (w : World) (a v : Z) : World :=
+  mk_World (upd (ram w) a v) (EvWr a v :: trace w) (inputs w).
+(* Go run-time checks: an out-of-range index or a nil dereference is recorded as EvPanic
+   (and yields a default), so "Step never panics" is a theorem about the trace *)
+Definition idx_w (w : World) (l : list Z) (i : Z) : World * Z :=
+  if in_range i l then (w, nth_Z i l) else (w_log w EvPanic, 0).
+
+Definition log_ev (cpu : CPU) (e : event) : CPU := s_W cpu (w_log (g_W cpu) e).
 
 (* IO.In / IO.Out reaching the user's IO object: the device answers with the next byte of
    its input stream (any deterministic device produces some stream; theorems quantify over all) *)
@@ -27,10 +32,8 @@ Definition reti_Handle (cpu : CPU) : CPU := log_ev cpu EvRETI.
 Definition retn_Handle (cpu : CPU) : CPU := log_ev cpu EvRETN.
 Definition warnf (cpu : CPU) : CPU := log_ev cpu EvWarn.
 
-(* Go run-time checks: an out-of-range index or a nil dereference is recorded as EvPanic
-   (and yields a default), so "Step never panics" is a theorem about the trace *)
 Definition idx (cpu : CPU) (l : list Z) (i : Z) : CPU * Z :=
-  if in_range i l then (cpu, nth_Z i l) else (log_ev cpu EvPanic, 0).
+  (s_W cpu (fst (idx_w (g_W cpu) l i)), snd (idx_w (g_W cpu) l i)).
 Definition nil_Interrupt : Interrupt := mk_Interrupt 0 [].
 Definition deref_Interrupt (cpu : CPU) (o : option Interrupt) : CPU * Interrupt :=
   match o with Some i => (cpu, i) | None => (log_ev cpu EvPanic, nil_Interrupt) end.
